@@ -121,7 +121,7 @@ func (s *hookSlot) matches(t *Term, n int) bool {
 // value (the module, the message server, the query server and the application each hold their own copy, all made
 // before anybody can register a listener), so the registration must write memory that the copies share — a cell
 // behind a pointer that the constructor allocates — not a field of the one copy it is called on.
-func checkHookShared(w *World, r *Report, s *hookSlot) {
+func checkHookShared(w *World, r *Report, tm *Terms, s *hookSlot) {
 	r.Rule("HK-SHARED", "listeners registered on one copy of the keeper reach every copy", 1)
 	if s == nil {
 		r.Fail("HK-SHARED", "slot", keeperPath, "the keeper's registration method stores the listeners in a field reachable from its receiver",
@@ -187,6 +187,8 @@ func checkHookShared(w *World, r *Report, s *hookSlot) {
 					}
 					if al, isAl := st.Val.(*ssa.Alloc); isAl && al.Heap {
 						alloc = true
+					} else if t := uncell(tm.OperandAt(tm.PlainRoot(fn), st, st.Val)); t.Op == "new" {
+						alloc = true // a helper that returns a freshly allocated cell
 					}
 				}
 			}
